@@ -62,6 +62,10 @@ CHECKS = {
                 technique="runtime monitoring of the transmitted body: independent multipart/form-data decoder (boundary taken from the Content-Type on the wire) over generated forms, with a coverage bitset of part-edge offsets modulo the 8 KiB copy buffer",
                 text="Generated forms (0..6 text fields x 0..5 files incl. the empty form, binary data with look-alike delimiter lines incl. the previous request's boundary, sizes sweeping every edge offset mod 8192, UTF-8 names/filenames, MIME parameters, short-write schedules) must build, prepare and send, and the de-chunked body must decode to exactly the multiset of parts added, with a closing delimiter and nothing after it.",
                 note="Part order is not judged. The decoder is the harness's own (unit-tested); content types are compared as parsed Mime values."),
+    "C16": dict(cat="exploration", design="DESIGN.md §3 C16",
+                technique="runtime monitoring of operation histories: real objects and a value model executed in lock-step; settings-snapshot hook checked on every live object after every operation, wire probes (headers, redirect bound, header limit, proxy dialled, connector arguments) on every send; objects then spread over concurrently operating threads",
+                text="Random sequences of session/builder operations with colliding values are run against a by-value model; after each operation every live object's snapshot must equal its model, and each send is observed through one wire probe; a second generator hands clones of all sessions to 2..8 barrier-started threads that keep mutating and sending while the parent verifies that the originals never change.",
+                note="Root certificates are only counted. Thread interleavings are those the OS produces; no data race is possible in safe Rust here, the concurrency part checks logical isolation of Arc copy-on-write."),
 }
 
 NOT_APPLICABLE = {}
